@@ -9,6 +9,7 @@ import z3
 from pyvc.values import *          # noqa
 from pyvc.contract import Contract, LoopSpec
 from pyvc.rect_engine import RectEngine, TNameList, PyNameList, alen, take, sel_len, WATERMARK
+from pyvc.engine import NS
 
 M = "xdeps/table.py"
 i, j = z3.Ints("i!r j!r")
@@ -173,3 +174,120 @@ COPY = Contract(
     min_obligations=3, extra=dict(ENG),
     note="the checked constructor copies the dict and the column list (trusted: Table.__init__, verify branch)")
 CONTRACTS += [COPY]
+
+
+# ----------------------------------------------------------------------------- __mul__ / _append_row / _concatenate_table / __add__
+def _names_same(a, b):
+    return z3.And(a.oid == b.oid, a.n == b.n,
+                  z3.ForAll([j], z3.Implies(z3.And(0 <= j, j < a.n), a.at(j) == b.at(j)), patterns=[a.at(j)]))
+
+
+def _grow_inv(rec_of, names_of, old_len, new_len):
+    """loop over the column names of a table whose columns are replaced one by one: the names visited so far have the new length,
+    the others still the old one; the key set, the name list, the index and the scalar entries stay as at loop entry"""
+    def g(L):
+        cur, ent = rec_of(L.cur), rec_of(L.pre)
+        nm = names_of(L)
+        return z3.And(
+            _names_same(cur._col_names, ent._col_names), cur._index.t == ent._index.t,
+            z3.ForAll([k], cur._data.has(k) == ent._data.has(k), patterns=[cur._data.has(k)]),
+            z3.ForAll([j], z3.Implies(z3.And(0 <= j, j < nm.n),
+                                      alen(cur._data.get(nm.at(j))) == z3.If(j < L.k, new_len(L), old_len(L))), patterns=[nm.at(j)]),
+            z3.ForAll([k], z3.Implies(z3.And(ent._data.has(k), z3.Not(ent._col_names.has(k))), cur._data.get(k) == ent._data.get(k)),
+                      patterns=[ent._data.has(k)]))
+    return g
+
+
+MUL = Contract(
+    module=M, qualname="Table.__mul__", params=dict(self=TTab, num=TInt), result=TTab,
+    requires=[("Rect", lambda s: rect(s.self))],
+    axioms=[lambda s: s.self._col_names.oid <= WATERMARK],
+    ensures=[("Rect-of-the-result-with-num-times-the-rows", lambda o, n, r: _derived_ok(o, r, o.num.t * common_len(o.self))),
+             ("same-columns-in-a-new-list", lambda o, n, r: z3.And(
+                 r._col_names.oid != o.self._col_names.oid, r._col_names.n == o.self._col_names.n,
+                 z3.ForAll([j], z3.Implies(z3.And(0 <= j, j < r._col_names.n), r._col_names.at(j) == o.self._col_names.at(j)),
+                           patterns=[r._col_names.at(j)]))),
+             ("scalars-carried", lambda o, n, r: scalars_carried(o.self, r))],
+    raises={"ValueError": dict(when=lambda s: s.num.t <= 0, post=[], modifies=())},
+    loops={0: LoopSpec(anchor="res._col_names", invariants=[
+        ("visited-columns-repeated-num-times", _grow_inv(lambda e: e.res, lambda L: L.pre.res._col_names,
+                                                         lambda L: common_len(L.old.self), lambda L: L.old.num.t * common_len(L.old.self))),
+        ("index", lambda L: z3.And(0 <= L.k, L.k <= L.n, L.n == L.pre.res._col_names.n))])},
+    min_obligations=6, extra=dict(ENG),
+    note="t * num: every listed column of a copy is repeated num times along the rows (t * 0 raises: numpy refuses to concatenate nothing)")
+
+APPEND_ROW_RECT = Contract(
+    module=M, qualname="Table._append_row", params=dict(self=TTab, row=TV),
+    requires=[("Rect", lambda s: rect(s.self))],
+    ensures=[("Rect-with-one-more-row", lambda o, n, r: z3.And(rect(n.self, common_len(o.self) + 1), n.self._index.t == o.self._index.t)),
+             ("same-column-list", lambda o, n, r: _names_same(n.self._col_names, o.self._col_names))],
+    raises={"UserError": dict(when=None, post=[], modifies=("self._data",)), "KeyError": dict(when=None, post=[], modifies=("self._data",))},
+    modifies=("self._data",),
+    loops={0: LoopSpec(anchor="self._col_names", invariants=[
+        ("visited-columns-one-row-longer", _grow_inv(lambda e: e.self, lambda L: L.old.self._col_names,
+                                                     lambda L: common_len(L.old.self), lambda L: common_len(L.old.self) + 1)),
+        ("index", lambda L: z3.And(0 <= L.k, L.k <= L.n, L.n == L.old.self._col_names.n))])},
+    min_obligations=6, extra=dict(ENG, variant="rect"),
+    note="no claim when `row` lacks a column (KeyError half way: the table is left with columns of two lengths)")
+
+tpos = z3.Function("position_in_other_table", V, IntS)
+spos = z3.Function("position_in_this_table", V, IntS)
+
+
+def _same_columns(s):
+    """`table` has the same columns as `self` (as sets; both lists are duplicate-free by Rect): tpos locates a name in table's list"""
+    sn, tn = s.self._col_names, s.table._col_names
+    return z3.And(sn.n == tn.n,
+                  z3.ForAll([j], z3.Implies(z3.And(0 <= j, j < tn.n), tpos(tn.at(j)) == j), patterns=[tn.at(j)]),
+                  z3.ForAll([j], z3.Implies(z3.And(0 <= j, j < sn.n), z3.And(0 <= tpos(sn.at(j)), tpos(sn.at(j)) < tn.n,
+                                                                             tn.at(tpos(sn.at(j))) == sn.at(j))), patterns=[sn.at(j)]),
+                  # ... and the other way round (with equal, duplicate-free lists this is the same statement; said explicitly)
+                  z3.ForAll([j], z3.Implies(z3.And(0 <= j, j < tn.n), z3.And(0 <= spos(tn.at(j)), spos(tn.at(j)) < sn.n,
+                                                                             sn.at(spos(tn.at(j))) == tn.at(j))), patterns=[tn.at(j)]))
+
+
+def _cat_inv(L):
+    s, t = L.old.self, L.old.table
+    cur = L.cur.self
+    sn = s._col_names
+    L1, L2 = common_len(s), common_len(t)
+    return z3.And(
+        _names_same(cur._col_names, sn), cur._index.t == s._index.t,
+        z3.ForAll([k], cur._data.has(k) == s._data.has(k), patterns=[cur._data.has(k)]),
+        z3.ForAll([j], z3.Implies(z3.And(0 <= j, j < sn.n),
+                                  alen(cur._data.get(sn.at(j))) == z3.If(tpos(sn.at(j)) < L.k, L1 + L2, L1)), patterns=[sn.at(j)]),
+        z3.ForAll([k], z3.Implies(z3.And(s._data.has(k), z3.Not(sn.has(k))), cur._data.get(k) == s._data.get(k)), patterns=[s._data.has(k)]))
+
+
+CONCAT_RECT = Contract(
+    module=M, qualname="Table._concatenate_table", params=dict(self=TTab, table=TTab), result=TTab,
+    requires=[("Rect", lambda s: rect(s.self)), ("Rect-of-the-other", lambda s: rect(s.table)), ("same-columns", _same_columns)],
+    ensures=[("Rect-with-the-rows-of-both", lambda o, n, r: z3.And(rect(n.self, common_len(o.self) + common_len(o.table)),
+                                                                 n.self._index.t == o.self._index.t)),
+             ("same-column-list", lambda o, n, r: _names_same(n.self._col_names, o.self._col_names)),
+             ("returns-self", lambda o, n, r: z3.And(_names_same(r._col_names, n.self._col_names), r._index.t == n.self._index.t,
+                                                     z3.ForAll([k], z3.And(r._data.has(k) == n.self._data.has(k),
+                                                                           r._data.get(k) == n.self._data.get(k)), patterns=[r._data.has(k)]))),
+             ("scalars-kept", lambda o, n, r: scalars_carried(o.self, n.self))],
+    raises={"ValueError": dict(when=None, post=[], modifies=("self._data",)), "KeyError": dict(when=None, post=[], modifies=("self._data",))},
+    modifies=("self._data",),
+    loops={0: LoopSpec(anchor="table._col_names", invariants=[
+        ("columns-named-so-far-hold-both-tables'-rows", _cat_inv),
+        ("index", lambda L: z3.And(0 <= L.k, L.k <= L.n, L.n == L.old.table._col_names.n))])},
+    min_obligations=6, extra=dict(ENG, variant="rect"),
+    note="in-place concatenation (used on a fresh copy by __add__); no claim when numpy refuses a column half way")
+
+ADD = Contract(
+    module=M, qualname="Table.__add__", params=dict(self=TTab, other=TTab), result=TTab,
+    requires=[("Rect", lambda s: rect(s.self)), ("Rect-of-the-other", lambda s: rect(s.other)),
+              ("same-columns", lambda s: _same_columns(NS(dict(self=s.self, table=s.other))))],
+    axioms=[lambda s: s.self._col_names.oid <= WATERMARK],
+    ensures=[("Rect-of-the-result-with-the-rows-of-both", lambda o, n, r: _derived_ok(o, r, common_len(o.self) + common_len(o.other))),
+             ("column-list-is-a-new-object", lambda o, n, r: r._col_names.oid != o.self._col_names.oid),
+             ("scalars-carried", lambda o, n, r: scalars_carried(o.self, r))],
+    raises={"ValueError": dict(when=None, post=[], modifies=()), "KeyError": dict(when=None, post=[], modifies=())},
+    min_obligations=3, extra=dict(ENG, callee_contracts={"_concatenate_table": CONCAT_RECT}),
+    note="t1 + t2 = a copy of t1 concatenated in place with t2: neither operand is modified (empty frame)")
+
+VARIANTS = [APPEND_ROW_RECT, CONCAT_RECT]
+CONTRACTS += [MUL, ADD]
